@@ -12,13 +12,17 @@ impl Rng {
         Rng(seed ^ 0x9E37_79B9_7F4A_7C15)
     }
     pub fn derive(seed: u64, stream: &str, index: u64) -> Rng {
-        let mut h = seed ^ 0xcbf2_9ce4_8422_2325;
+        fn mix(mut z: u64) -> u64 {
+            z = (z ^ (z >> 30)).wrapping_mul(0xBF58_476D_1CE4_E5B9);
+            z = (z ^ (z >> 27)).wrapping_mul(0x94D0_49BB_1331_11EB);
+            z ^ (z >> 31)
+        }
+        let mut h = mix(seed ^ 0xcbf2_9ce4_8422_2325);
         for b in stream.bytes() {
             h = (h ^ u64::from(b)).wrapping_mul(0x0000_0100_0000_01B3);
         }
-        let mut r = Rng(h ^ index.wrapping_mul(0x9E37_79B9_7F4A_7C15));
-        r.next();
-        r
+        // independent streams per index: the index goes through the finaliser, not into the counter
+        Rng(mix(h ^ mix(index.wrapping_add(0x632B_E59B_D9B4_E019))))
     }
     pub fn next(&mut self) -> u64 {
         self.0 = self.0.wrapping_add(0x9E37_79B9_7F4A_7C15);
